@@ -124,7 +124,7 @@ CORPUS = [
     (B, "C08", "mesh/_dual.py", "        cells_new = cells_new + offset\n", "        cells_new += offset\n"),
     (B, "C02", "assembly/expression/_mixed.py", "sym=sym and i == j", "sym=sym"),
     (B, "C12", "constitution/linear_elasticity/_linear_elastic.py", "        e[2, 2] = -nu / (1 - nu) * (e[0, 0] + e[1, 1])", "        e[2, 2] = -nu / (1 - nu) * (F[0, 0] + F[1, 1])"),
-    (B, "C01,C14", "mechanics/_multipoint.py", "        self.points = ids[self.points]\n", ""),
+    (B, "C01,C14", "mechanics/_multipoint.py", "        self.points = np.unique(ids[self.points])\n", "        self.points = np.unique(self.points)\n"),
     (B, "C18", "mechanics/_free_vibration.py", 'kwargs.pop("sigma", 0)', 'kwargs.get("sigma", 0)'),
     (B, "C03", "constitution/_base.py", 'out = kwargs.pop("out", None)\n        gradients', 'out = kwargs.get("out", None)\n        gradients'),
     (B, "C03", "constitution/hyperelasticity/_neo_hooke_nearly_incompressible.py", "            A4.fill(0)\n", "            np.multiply(A4, 0, out=A4)\n"),
@@ -153,6 +153,17 @@ CORPUS = [
     (B, "C07,C08", "dof/_tools.py", "offsets = np.insert(field.offsets, 0, 0)", "offsets = np.insert(np.array(field.fieldsizes)[:-1], 0, 0)"),
     (B, "C13", "region/_boundary.py", "            point_selection = np.arange(len(mesh.points))[mask]", "            point_selection = np.flatnonzero(mask)"),
     (B, "C19", "tools/_project.py", "    A = IntegralFormCartesian(np.ones((1, 1)), v=v, dV=dV, u=u).assemble()", "    A = IntegralFormCartesian(np.ones((1, 1)), v=v, dV=region.dV, u=u).assemble()"),
+    # ---- round 11: the repair reverted and its classes
+    (B, "C01,C14", "mechanics/_multipoint.py", "        self.points = np.unique(ids[self.points])\n", "        self.points = ids[self.points]\n"),
+    (B, "C01,C14", "mechanics/_multipoint.py", "        self.points = np.unique(np.arange(self.mesh.npoints)[self.points])\n", "        self.points = np.arange(self.mesh.npoints)[self.points]\n"),
+    (B, "C15,C03", "constitution/_mixed.py", "        return [dWdF, dWdp, dWdJ, statevars_new]", "        return [dWdF, dWdp, dWdJ, statevars]"),
+    (B, "C19", "quadrature/_gauss_legendre.py", "        points[self.points != 0] = 1 / points[self.points != 0]", "        nz = np.all(points != 0, axis=-1)\n        points[nz] = 1 / points[nz]"),
+    (B, "C11", "constitution/tensortrax/models/hyperelastic/microsphere/_framework_affine.py",
+     "    λa = det(C) ** (1 / 6) * sqrt(einsum(\"ai,ij...,aj->a...\", r, inv(C), r))\n    ψa, statevars_new", "    λa = sqrt(det(C) ** (1 / 6) * einsum(\"ai,ij...,aj->a...\", r, inv(C), r))\n    ψa, statevars_new"),
+    (B, "C18", "mechanics/_free_vibration.py", "        values = np.zeros(sum(field.fieldsizes))\n", "        values = np.concatenate([f.values.ravel() for f in field.fields]).astype(float)\n"),
+    (K, "C18", "mechanics/_free_vibration.py", "        dof0, self.dof1 = partition(x, self.boundaries)", "        self.dof0, self.dof1 = partition(x, self.boundaries)"),
+    (K, "C11", "constitution/tensortrax/models/hyperelastic/microsphere/_framework_affine.py",
+     "    λa = det(C) ** (1 / 6) * sqrt(einsum(\"ai,ij...,aj->a...\", r, inv(C), r))\n    ψa, statevars_new", "    λa = sqrt(det(C) ** (1 / 3) * einsum(\"ai,ij...,aj->a...\", r, inv(C), r))\n    ψa, statevars_new"),
     # ---- behaviour-preserving edits: the listed checks must stay silent
     (K, "C04", "element/_quad.py", "            * 0.25\n        )\n\n    def gradient", "            / 4\n        )\n\n    def gradient"),
     (K, "C17,C03", "math/_tensor.py", "    out = np.add(A, transpose(A), out=out)\n    return np.multiply(out, 0.5, out=out)", "    out = np.add(A, transpose(A), out=out)\n    return np.divide(out, 2, out=out)"),
